@@ -634,6 +634,11 @@ async def _s_start(ctx: Ctx, a: Actor, st: dict) -> Any:
     await _cli(ctx, st).start_connection(on_stop=_user_on_stop(ctx, a.aid))
 
 
+@step("set_expected_name")
+async def _s_set_expected(ctx: Ctx, a: Actor, st: dict) -> Any:
+    _cli(ctx, st).expected_name = st.get("name")
+
+
 @step("finish")
 async def _s_finish(ctx: Ctx, a: Actor, st: dict) -> Any:
     cli = _cli(ctx, st)
@@ -820,6 +825,7 @@ def _add_raw_cb(ctx: Ctx, conn: Any, sid: str, types: list, behaviors: list) -> 
             elif b["do"] == "add":
                 _add_raw_cb(ctx, conn, b["new"]["sid"], b["new"]["types"], b["new"].get("behaviors", []))
             elif b["do"] == "raise":
+                w.rec("cb_raise", sid=sid)
                 raise ValueError("subscriber failure " + sid)
             elif b["do"] == "force_disconnect":
                 # the application closes the session from inside a message callback (public API, force path has no await)
@@ -838,17 +844,39 @@ def _add_raw_cb(ctx: Ctx, conn: Any, sid: str, types: list, behaviors: list) -> 
     w.rec("sub_add", sid=sid, types=list(types))
     remove = conn.add_message_callback(cb, tuple(getattr(pb, t) for t in types))
     ctx.subs[sid] = remove
+    ctx.extra.setdefault("raw_cb_fn", {})[sid] = (cb, list(types))
+
+
+def _add_raw_cb_again(ctx: Ctx, conn: Any, sid: str, key: str, types: list) -> None:
+    """A second, overlapping subscription of the SAME callable (sid) for `types`; removable under `key`."""
+    ent = ctx.extra.get("raw_cb_fn", {}).get(sid)
+    if ent is None:
+        return
+    ctx.world.rec("sub_add", sid=sid, types=list(types), again=key)
+    ctx.subs[key] = conn.add_message_callback(ent[0], tuple(getattr(ctx.L.pb, t) for t in types))
+    ctx.extra.setdefault("raw_cb_types", {})[key] = (sid, list(types))
 
 
 def _remove_raw_cb(ctx: Ctx, sid: str) -> None:
     rm = ctx.subs.pop(sid, None)
+    if rm is not None and sid in ctx.extra.get("raw_cb_types", {}):
+        base, types = ctx.extra["raw_cb_types"][sid]
+        ctx.world.rec("sub_remove", sid=base, types=types, again=sid)
+        rm()
+        return
+    if rm is not None and sid in ctx.extra.get("raw_cb_fn", {}) and any(b == sid for b, _t in ctx.extra.get("raw_cb_types", {}).values()):
+        # the callable also has an overlapping second subscription: removing this one takes away exactly its types
+        ctx.world.rec("sub_remove", sid=sid, types=ctx.extra["raw_cb_fn"][sid][1])
+        ctx.extra.setdefault("removed_cbs", {})[sid] = rm
+        rm()
+        return
     if rm is not None:
         ctx.world.rec("sub_remove", sid=sid)
         ctx.extra.setdefault("removed_cbs", {})[sid] = rm
         rm()
     elif sid in ctx.extra.get("removed_cbs", {}):
         # the unsubscribe callable is idempotent by contract: calling it again must change nothing
-        ctx.world.rec("sub_remove_again", sid=sid)
+        ctx.world.rec("sub_remove_again", sid=sid, types=ctx.extra.get("raw_cb_fn", {}).get(sid, (None, []))[1])
         ctx.extra["removed_cbs"][sid]()
 
 
@@ -856,6 +884,12 @@ def _remove_raw_cb(ctx: Ctx, sid: str) -> None:
 async def _s_add_cb(ctx: Ctx, a: Actor, st: dict) -> Any:
     conn = _cli(ctx, st)._get_connection()
     _add_raw_cb(ctx, conn, st["sid"], st["types"], st.get("behaviors", []))
+
+
+@step("add_cb_again")
+async def _s_add_cb_again(ctx: Ctx, a: Actor, st: dict) -> Any:
+    conn = _cli(ctx, st)._get_connection()
+    _add_raw_cb_again(ctx, conn, st["sid"], st["key"], st["types"])
 
 
 @step("remove_cb")
